@@ -401,6 +401,14 @@ def c08 (m : StreamMon) (cfg : Cfg) (op : Op) (o : OpObs) : Bool × StreamMon :=
     | a :: rest => (ok && (a.prompt != cfg.prompt || detachOk a), { atts := rest })
   | _ => (ok, { atts := atts })
 
+/-- C08 at the level of its consumers (`exec()` command events): the text logged into the command's
+    event while its stream was attached is exactly the output the command returned — nothing of the
+    prompt, nothing held back from an earlier command. -/
+def consumerLog (obs : List (List Char × List Char)) : Bool :=
+  -- carriage returns are compared away: the returned text went through CR/LF normalisation as a
+  -- whole, the event normalises per write
+  obs.all fun p => p.1.filter (· != '\r') == p.2.filter (· != '\r')
+
 def foldOpsCM {σ} (f : σ → Cfg → Op → OpObs → Bool × σ) : σ → Cfg → List Op → List OpObs → Bool
   | _, _, [], [] => true
   | st, c, op :: ops, o :: os =>
